@@ -36,6 +36,10 @@ pub enum S17 {
 pub struct T17 {
     pub clients: u8,
     pub steps: Vec<S17>,
+    /// Server frames (each with one broadcast event) that run after the connections were accepted and before
+    /// the clients' first frame: messages are already waiting when a client starts.
+    #[serde(default)]
+    pub late_start: u8,
 }
 
 #[derive(Event, Serialize, Deserialize, Clone, Debug)]
@@ -177,6 +181,16 @@ impl C17 {
             // Accept in connection order so that connection index == client index.
             let _ = upd(&mut server);
         }
+        let mut seq = 0u32;
+        // sent[type] = seqs in sending order
+        let mut sent_s: [Vec<u32>; 3] = Default::default();
+        for _ in 0..t.late_start.min(3) {
+            seq += 1;
+            server.world_mut().send_event(ToClients { mode: SendMode::Broadcast, event: Sa(seq, payload(seq, 8)) });
+            sent_s[0].push(seq);
+            let _ = upd(&mut server);
+            stats.fault("client_starts_late");
+        }
         for _ in 0..3 {
             let _ = upd(&mut server);
             for c in clients.iter_mut() {
@@ -189,9 +203,6 @@ impl C17 {
         }
         control::set_hold(true);
 
-        let mut seq = 0u32;
-        // sent[type] = seqs in sending order
-        let mut sent_s: [Vec<u32>; 3] = Default::default();
         let mut sent_c: Vec<[Vec<u32>; 2]> = vec![Default::default(); n];
         let mut dead = false;
         let total_steps = t.steps.len();
@@ -445,7 +456,7 @@ impl Engine for C17 {
                 }
             }
         }
-        T17 { clients, steps }
+        T17 { clients, steps, late_start: if r.chance(30) { r.range(1, 3) as u8 } else { 0 } }
     }
 
     fn run(t: &T17, verbose: bool, _no_taint: bool) -> Outcome {
@@ -468,6 +479,11 @@ impl Engine for C17 {
 
     fn simplify(t: &T17) -> Vec<T17> {
         let mut v = vec![];
+        if t.late_start > 0 {
+            let mut c = t.clone();
+            c.late_start -= 1;
+            v.push(c);
+        }
         if t.clients > 1 {
             let mut c = t.clone();
             c.clients = 1;
@@ -528,10 +544,11 @@ impl Engine for C17 {
             S17::ServerFrame,
         ];
         vec![
-            Directed { id: "F7", trace: T17 { clients: 1, steps: pile }, symptom_oracles: vec![] },
-            Directed { id: "F7up", trace: T17 { clients: 1, steps: pile_up }, symptom_oracles: vec![] },
-            Directed { id: "F16", trace: T17 { clients: 1, steps: torn }, symptom_oracles: vec![] },
-            Directed { id: "F16header", trace: T17 { clients: 1, steps: torn_header }, symptom_oracles: vec![] },
+            Directed { id: "late_start", trace: T17 { clients: 2, steps: vec![S17::ServerFrame, S17::ClientFrame { client: 0 }, S17::ClientFrame { client: 1 }], late_start: 2 }, symptom_oracles: vec![] },
+            Directed { id: "F7", trace: T17 { clients: 1, steps: pile, late_start: 0 }, symptom_oracles: vec![] },
+            Directed { id: "F7up", trace: T17 { clients: 1, steps: pile_up, late_start: 0 }, symptom_oracles: vec![] },
+            Directed { id: "F16", trace: T17 { clients: 1, steps: torn, late_start: 0 }, symptom_oracles: vec![] },
+            Directed { id: "F16header", trace: T17 { clients: 1, steps: torn_header, late_start: 0 }, symptom_oracles: vec![] },
         ]
     }
 
